@@ -248,6 +248,50 @@ func (s *State) Sweep(name string, stride uint64) V {
 					}
 				}
 			})
+		case "rembencint", "rembenctop18", "rembencscale", "rembencsat":
+			// encoder lemmas of spec/RembAlg.tla (EncLemmas) over all floats of a range; a float is (e, f)
+			enc := func(bits uint32) (uint32, bool) {
+				p := rtcp.ReceiverEstimatedMaximumBitrate{Bitrate: abs.FloatFromBits(bits)}
+				b, err := p.Marshal()
+				if err != nil {
+					return 0, false
+				}
+				return uint32(b[17])<<16 | uint32(b[18])<<8 | uint32(b[19]), true
+			}
+			var elo, ehi uint32
+			switch name {
+			case "rembencint":
+				elo, ehi = 127, 144 // 1 <= x < 2^18: only the integer part matters
+			case "rembenctop18":
+				elo, ehi = 150, 150 // only the leading 18 bits matter
+			case "rembencscale":
+				elo, ehi = 145, 206 // doubling adds one to the exponent
+			case "rembencsat":
+				elo, ehi = 208, 254 // saturation
+			}
+			n = uint64(ehi-elo+1) << 23
+			fails = parallel(n, func(lo, hi uint64, fail func(string)) {
+				for x := lo; x < hi; x += stride {
+					e, f := elo+uint32(x>>23), uint32(x&0x7FFFFF)
+					a, ok := enc(e<<23 | f)
+					var z uint32
+					var ok2 bool
+					switch name {
+					case "rembencint":
+						z, ok2 = enc(e<<23 | f&^(1<<(150-e)-1))
+					case "rembenctop18":
+						z, ok2 = enc(e<<23 | f&^63)
+					case "rembencscale":
+						z, ok2 = enc((e+1)<<23 | f)
+						z -= 1 << 18 // one less in the 6-bit exponent field
+					case "rembencsat":
+						z, ok2 = 63<<18|0x3FFFF, true
+					}
+					if !ok || !ok2 || a != z {
+						fail(fmt.Sprintf("e=%d f=%d", e, f))
+					}
+				}
+			})
 		case "rembscale24": // decode(e, m) = decode(0, m) with e added to the float exponent, all 2^24 pairs
 			n = 1 << 24
 			fails = parallel(n, func(lo, hi uint64, fail func(string)) {
